@@ -3,6 +3,8 @@
 package server
 
 import (
+	"github.com/ollama/ollama/types/model"
+
 	"github.com/ollama/ollama/server/internal/cache/blob"
 	"github.com/ollama/ollama/server/internal/client/ollama"
 )
@@ -32,3 +34,6 @@ func VerifC13ParseDigest(dir, s string) (sum [32]byte, file string, err error) {
 	}
 	return d.Sum(), blob.VerifC13GetFile(dir, d), nil
 }
+
+// VerifC13GetExistingName calls the real, unexported getExistingName (legacy case-insensitive lookup).
+func VerifC13GetExistingName(n model.Name) (model.Name, error) { return getExistingName(n) }
